@@ -417,7 +417,7 @@ func TestC02(t *testing.T) {
 			}
 		}
 	}
-	n := run.Pick(160, 16000)
+	n := run.Pick(500, 160000)
 	for i := 0; i < n; i++ {
 		if !run.Mine(i) {
 			continue
@@ -447,7 +447,7 @@ func TestC02(t *testing.T) {
 			run.Sample(map[string]any{"cfg": cfg.String(), "accusations": seq})
 		}
 	}
-	nr := run.Pick(8, 400)
+	nr := run.Pick(12, 3000)
 	for i := 0; i < nr; i++ {
 		if !run.Mine(i) {
 			continue
